@@ -6,8 +6,9 @@
 From Coq Require Import ZArith QArith Qcanon Arith Lia Bool List.
 From QV.Core Require Import OF QcOF Sums Mat Cplx Psd C01_HermPsd.
 From QV.Exec Require Import Base Core_ops C01_ops.
-From QV.Model Require Import QObj HermEmbed C01_Verdicts.
+From QV.Model Require Import QObj HermEmbed C01_Verdicts C01_History.
 From QV.Proofs Require Import C01_Verdicts C01_Exec.
+Import ListNotations.
 
 Local Open Scope Qc_scope.
 
@@ -196,3 +197,14 @@ Lemma ex_instr_physical : @mprocess_is_physical Fq q0 true 4 pauli2n 2 ex_instr 
                        /\ @mprocess_is_physical Fq q0 true 4 pauli2n 2 ex_instr_bad (Some (qc 1 3)) (Some q0) = true.
 Proof. unfold mprocess_ctor_raises, ctor_raises. rewrite <- !(x_mp_phys_eq _ _ 4) by lia.
   split; [compute_true|]. split; [compute_false|]. split; [compute_true|]. split; [compute_false|compute_true]. Qed.
+
+(* a history on ONE object (ex_neg: unit trace, smallest eigenvalue -1/4): global tolerance 1/5, then 1/4, then 1/5 again, then an explicit
+   argument while the global value is 1/5 -- every answer is the verdict at the tolerance in force at that call *)
+Lemma ex_neg_history :
+  @run_history Fq (fun t => state_is_trace_one 4 pauli2n ex_neg t q0) (state_is_psd 4 pauli2n ex_neg) q0
+    [@HSet Fq (qc 1 5); HQuery QPhys None None; @HSet Fq (qc 1 4); HQuery QPhys None None; @HSet Fq (qc 1 5); HQuery QIneq None None;
+     @HQuery Fq QIneq None (Some (qc 1 4)); HQuery QEq None None]
+  = [false; true; false; true; true].
+Proof. cbn [run_history hanswer resolve_atol]. unfold state_is_psd.
+  repeat rewrite <- (x_is_psd_meq 4 _ _ _ (cfreeze_meq 4 (op_of_vec 4 pauli2n ex_neg))).
+  vm_cast_no_check (@eq_refl (list bool) [false; true; false; true; true]). Qed.
